@@ -82,7 +82,7 @@ SeesShutdown(t) == t.st = "sleep" /\ ~sender
 Tick ==
     /\ now < MaxTime /\ ~Due(mt) /\ ~Due(stt) /\ ~Transient(mt) /\ ~Transient(stt)
     /\ ~SeesShutdown(mt) /\ ~SeesShutdown(stt) /\ ~(closed /\ sender)
-    /\ ~(mt = Done /\ stt = Done /\ ~sender /\ ~exited)
+    /\ ~(mt = Done /\ stt = Done /\ ~exited)
     /\ now' = now + 1
     /\ UNCHANGED <<open, closed, sender, mt, stt, exited, trig, crossed, merges, spurious, lastSync, effects, lateWork, dropTime, lastEnd>>
 
@@ -158,8 +158,9 @@ DropStore ==
 DropSender ==
     /\ closed /\ sender /\ sender' = FALSE
     /\ UNCHANGED <<now, open, closed, mt, stt, exited, trig, crossed, merges, spurious, lastSync, effects, lateWork, dropTime, lastEnd>>
+\* the thread returns when both tasks have (with policy `never` and no interval sync that is at once)
 BgExit ==
-    /\ mt = Done /\ stt = Done /\ ~sender /\ ~exited /\ exited' = TRUE
+    /\ mt = Done /\ stt = Done /\ ~exited /\ exited' = TRUE
     /\ UNCHANGED <<now, open, closed, sender, mt, stt, trig, crossed, merges, spurious, lastSync, effects, lateWork, dropTime, lastEnd>>
 \* any Handle method after the close: fails with Closed, no effect (effects stays 0)
 HandleOpAfterClose ==
